@@ -8,3 +8,24 @@ func VerifResetCache() {
 	fieldCache = map[reflect.Type][]FieldMeta{}
 	fieldLock.Unlock()
 }
+
+// VerifSnapshot / VerifRestore: the layout cache is a map mutated in place: copy it.
+func VerifSnapshot() map[reflect.Type][]FieldMeta {
+	fieldLock.Lock()
+	defer fieldLock.Unlock()
+	m := make(map[reflect.Type][]FieldMeta, len(fieldCache))
+	for k, v := range fieldCache {
+		m[k] = v
+	}
+	return m
+}
+
+func VerifRestore(s map[reflect.Type][]FieldMeta) {
+	m := make(map[reflect.Type][]FieldMeta, len(s))
+	for k, v := range s {
+		m[k] = v
+	}
+	fieldLock.Lock()
+	fieldCache = m
+	fieldLock.Unlock()
+}
